@@ -690,6 +690,16 @@ def main(prop, tier, seed):
         if prop == "C07" and not run.machinery_errors:
             from engines import forms
             forms.run_forms(run, "derivs")
+            # splined potentials: the offered derivatives of the three construction routes and of splines whose end potentials
+            # have no analytic derivative (engines/splines.check_routes)
+            from engines import splines
+            sbad = []
+            splines.check_routes(run, sbad)
+            seen = set()
+            for clause, msg, case in sbad:
+                if (clause, msg[:60]) not in seen and ".deriv" in msg:
+                    seen.add((clause, msg[:60]))
+                    run.violation(dict(engine="algebra", clause="spline-" + clause), "[spline-%s] %s" % (clause, msg), case)
         if not run.machinery_errors:
             powvar_check(run)
             if _MODE == "C09":
